@@ -9,7 +9,7 @@
     native text, from the first re-parse on for foreign spellings) - partial in that sense. *)
 From V Require Import base.Prelude base.Strs gen.Tables model.Cfg model.Names model.Wildcard model.Ports model.Addr model.Ace
   model.Lex model.AddrText model.AceText model.AclText
-  proofs.NamesProofs proofs.PortsProofs proofs.TextProofs proofs.SplitterProofs proofs.AceFixProofs.
+  proofs.NamesProofs proofs.PortsProofs proofs.TextProofs proofs.SplitterProofs proofs.AceFixProofs proofs.AddrObjProofs.
 Local Open Scope N_scope.
 
 Theorem C06_port_partial : forall pr pl v15 nr o xs p,
@@ -41,6 +41,30 @@ Proof.
   split; [now apply prefix_text_fixpoint|now apply wild_text_fixpoint].
 Qed.
 
+
+(** ** address OBJECTS
+    Every address object the reader builds from a native spelling (any, host A, A/len, A W; all
+    32-bit addresses and masks, all lengths, contiguous or not, any limit of non-contiguous bits
+    that accepts it) renders to text that is read back as the SAME object, on IOS and NX-OS -
+    except the listed finding N1 (IOS, zero-length prefix), for which the statement is refuted
+    by [C06_n1_refuted]. *)
+Theorem C06_address_object : forall pl limit sp a,
+  (pl = Ios \/ pl = Nxos) -> sp_bounds sp -> ~ is_n1 pl sp ->
+  addr_of_spelling pl limit sp = Ok a ->
+  parse_address_text pl limit (render_addr pl a) = Ok a.
+Proof. exact reader_addr_fixpoint. Qed.
+
+Theorem C06_address_std : forall pl limit a m w,
+  (pl = Ios \/ pl = Nxos) -> a < 2 ^ 32 -> m < 2 ^ 32 -> new_wild limit a m = Ok w ->
+  parse_address_text pl limit (render_addr pl (ASingle (std_type pl w) w)) = Ok (ASingle (std_type pl w) w).
+Proof. exact addr_obj_fixpoint. Qed.
+
+Definition c06_n1 : res (addr * string * res addr) :=
+  do a <- addr_of_spelling Ios 16 (SPrefix 167772160 0);
+  Ok (a, render_addr Ios a, parse_address_text Ios 16 (render_addr Ios a)).
+Theorem C06_n1_refuted :
+  exists a t a', c06_n1 = Ok (a, t, Ok a') /\ t = "0.0.0.0 255.255.255.255"%string /\ render_addr Ios a' = "any"%string.
+Proof. eexists. eexists. eexists. split; [vm_compute; reflexivity|]. split; vm_compute; reflexivity. Qed.
 
 (** ** a whole extended ACE
     If every field of an extended ACE is a fixed point of its own reader and is written in
